@@ -118,7 +118,7 @@ func (o *ObjectSchema) Unserialize(data any) (result any, err error) {
 	v := reflect.ValueOf(data)
 	var rawData map[string]any
 	if v.Kind() != reflect.Map {
-		if len(o.Properties()) == 1 {
+		if len(o.Properties()) == 1 && !o.inlineShorthandCycles() {
 			rawData, err = o.unserializeInlinedDataToMap(data)
 		} else {
 			return nil, &ConstraintError{
@@ -139,6 +139,40 @@ func (o *ObjectSchema) Unserialize(data any) (result any, err error) {
 		return o.unserializeToStruct(rawData)
 	}
 	return rawData, nil
+}
+
+// inlineShorthandCycles reports whether the single-property shorthand would never arrive anywhere: the only property is
+// (a reference to) an object that has a single property too, and so on, back to an object the chain has passed - a list
+// node whose only property is the reference to the next node. A value that is not a map is no such object.
+func (o *ObjectSchema) inlineShorthandCycles() bool {
+	passed := []Object{o}
+	var current Object = o
+	for {
+		properties := current.Properties()
+		if len(properties) != 1 {
+			return false
+		}
+		var next Object
+		for _, property := range properties {
+			switch property.TypeID() {
+			case TypeIDRef:
+				next = property.Type().(Ref).GetObject()
+			case TypeIDObject:
+				next = property.Type().(Object)
+			case TypeIDScope:
+				next = property.Type().(Scope).RootObject()
+			default:
+				return false
+			}
+		}
+		for _, earlier := range passed {
+			if earlier == next {
+				return true
+			}
+		}
+		passed = append(passed, next)
+		current = next
+	}
 }
 
 func (o *ObjectSchema) unserializeInlinedDataToMap(data any) (map[string]any, error) {
